@@ -405,6 +405,10 @@ class SelFromPlot:
         """
         sorted_indices = np.argsort(self.sel_freq)
         self.sel_freq = list(np.array(self.sel_freq)[sorted_indices])
+        if self.plot in ("SSI", "pLSCF"):
+            self.pole_ind = [self.pole_ind[i] for i in sorted_indices]
+        elif self.plot == "FDD":
+            self.freq_ind = [self.freq_ind[i] for i in sorted_indices]
 
     def show_help(self) -> None:
         """
